@@ -390,6 +390,21 @@ theorem C17_guard_emitted (fmt : F → List Char) :
     encode fmt (.multiPolygon [[[]]]) = .ok "MULTIPOLYGON((()))".toList := by
   refine ⟨rfl, rfl, rfl, rfl, rfl, rfl, rfl, rfl⟩
 
+/-- **C17_injective** (corollary of `C17_roundtrip`): on the guarded domain the text determines the
+geometry — two supported, finite geometries with at least one vertex per member and the same WKT text
+are equal (type, nesting and coordinates), whatever formatter satisfies the contract. -/
+theorem C17_injective (h : NumFmt fin fmt parseNum) (g₁ g₂ : Geom F)
+    (hs₁ : supported g₁ = true) (hne₁ : everyMemberNonEmpty g₁ = true) (hf₁ : allFinite fin g₁ = true)
+    (hs₂ : supported g₂ = true) (hne₂ : everyMemberNonEmpty g₂ = true) (hf₂ : allFinite fin g₂ = true)
+    (he : encode fmt g₁ = encode fmt g₂) : g₁ = g₂ := by
+  obtain ⟨t₁, e₁, p₁⟩ := C17_roundtrip h g₁ hs₁ hne₁ hf₁
+  obtain ⟨t₂, e₂, p₂⟩ := C17_roundtrip h g₂ hs₂ hne₂ hf₂
+  rw [e₁, e₂] at he
+  have : t₁ = t₂ := by injection he
+  subst this
+  rw [p₁] at p₂
+  injection p₂
+
 /-! ### Non-vacuity -/
 
 /-- the contract is satisfiable (`C17_numfmt_int`), so `C17_roundtrip` is not vacuous: an instance -/
